@@ -4,6 +4,8 @@ import AcraModel.CrossClient.Context
 import AcraModel.CrossClient.Token
 import AcraModel.CrossClient.Tls
 import AcraModel.CrossClient.Keys
+import AcraModel.CrossClient.TlsIdentity
+import AcraModel.CrossClient.TlsServer
 import AcraModel.Crypto.Shim
 import Driver.C01
 /-! Driver ops for C02: every reveal-type entry point run under a chosen identity of a key store with
@@ -124,8 +126,82 @@ def runTokCollect (st : TokStore) : List TokOp → TokStore × List String
       let (s, r) := runTokCollect st ops
       (s, "-err-" :: r)
 
+/-- a list attribute of a certificate description: `_` = absent, otherwise comma-joined hex values -/
+def parseAttrList (s : String) : Option (List Bytes) :=
+  if s = "_" then some [] else (s.splitOn ",").mapM ofHex
+
+def parseMode (s : String) : Option IdMode :=
+  match s with
+  | "dn" => some .distinguishedName
+  | "serial" => some .serialNumber
+  | _ => none
+
+/-- 11 tokens: serial keySeed C ST L STREET POSTALCODE O OU CN SERIALNUMBER (the key seed is not part of the model) -/
+def parseCert : List String → Option (Cert × List String)
+  | serial :: _ :: c :: st :: l :: street :: postal :: o :: ou :: cn :: sn :: rest => do
+    let c ← parseAttrList c
+    let st ← parseAttrList st
+    let l ← parseAttrList l
+    let street ← parseAttrList street
+    let postal ← parseAttrList postal
+    let o ← parseAttrList o
+    let ou ← parseAttrList ou
+    let cn ← ofHex cn
+    let sn ← ofHex sn
+    let name : Name := ⟨c, st, l, street, postal, o, ou, cn, sn⟩
+    pure (⟨name, beVal (← ofHex serial)⟩, rest)
+  | _ => none
+
+/-- `n` certificates, each 11 tokens or the single token `nil` -/
+def parseCerts : Nat → List String → Option (List (Option Cert) × List String)
+  | 0, rest => some ([], rest)
+  | n + 1, "nil" :: rest => do
+    let (cs, rest') ← parseCerts n rest
+    pure (none :: cs, rest')
+  | n + 1, toks => do
+    let (c, rest) ← parseCert toks
+    let (cs, rest') ← parseCerts n rest
+    pure (some c :: cs, rest')
+
+def idOut : Out Bytes → String
+  | .ok id => hexOf id
+  | .err => "err"
+  | .panic => "panic"
+
 def handle (op : String) (args : List String) : Option String :=
   match op, args with
+  -- tlsid.seq mode n (cert | nil)×n : one long-lived extractor, the certificates in order
+  | "tlsid.seq", mode :: n :: rest => do
+      let (cs, tail) ← parseCerts (← n.toNat?) rest
+      if !tail.isEmpty then none
+      let outs := (sha512Extractor (← parseMode mode)).run cs
+      pure (if outs.isEmpty then "_" else ",".intercalate (outs.map idOut))
+  -- srv.grpc handle rpc mode cert forged data hash n idents… : a decrypt-type RPC on the server NewServer builds
+  -- (UseConnectionClientID), over a TLS connection whose peer certificate is `cert`
+  | "srv.grpc", _ :: rpc :: mode :: rest => do
+      let (cert, rest) ← parseCert rest
+      match rest with
+      | forged :: data :: hash :: n :: rest => do
+        let (is, tail) ← parseIdents (← n.toNat?) rest
+        if !tail.isEmpty then none
+        let data ← ofHex data
+        let hash ← parseOpt hash
+        let forged ← parseOpt forged
+        let conn : ConnId := match extractClientID Sha512.sha512 (← parseMode mode) (some cert) with
+          | .ok id => some id
+          | _ => none
+        if rpc == "GenerateQueryHash" then
+          -- deterministic: the blind index of the data under the HMAC key of the identity the service is given
+          let svc : Request → Option String := fun r =>
+            match hmacOfIdents is r.clientId with
+            | some key => some ("ok " ++ hexOf (generateHash C key r.payload))
+            | none => some "err"
+          serverCall true rpc svc (some "err") conn ⟨forged.getD [], data⟩
+        else
+          let (entry, k) ← rpcEntry rpc
+          let svc : Request → Option String := fun r => runEntry entry is r.clientId k r.payload hash true
+          serverCall true rpc svc (some "err") conn ⟨forged.getD [], data⟩
+      | _ => none
   -- as entry idx kind data hash n idents…
   | "as", entry :: idx :: kind :: data :: hash :: n :: rest => do
       let (is, tail) ← parseIdents (← n.toNat?) rest
